@@ -260,8 +260,62 @@ def promote_early_case(rng, tries=200):
     return None
 
 
+def offaxis_case(rng, tries=300):
+    """VOGP on a cone whose axis is off the diagonal, so that u* has a NEGATIVE entry: design 1 = design 0 + c·u*
+    dominates design 0 by more than the slack; both rectangles are wide in the objectives where u* is negative and
+    narrow in the others, so design 0 cannot be discarded yet and is still ε-covered by design 1 (the truths are a
+    witness) — while `u*·(upper_1 − lower_0)`, a bound that is valid only for u* ≥ 0, is below ε."""
+    for _ in range(tries):
+        cname = rng.choice(c01.OFFAXIS_CONES2 + c01.OFFAXIS_CONES2 + c01.OFFAXIS_CONES3)
+        W = c01.acute_cone(cname)
+        Wn = np.array(W, dtype=float)
+        N, m = Wn.shape
+        u = ustar_estimate(W)
+        neg = u < -0.05
+        if not np.any(neg):
+            continue
+        eps = rng.choice([0.1, 0.2, 0.05])
+        s = eps * u
+        g = rng.choice([0.5, 1.0, 2.0, 4.0 * eps]) * u
+        if not np.all(Wn @ (g - s) >= 1e-6):
+            continue
+        narrow = rng.choice([0.02, 0.05, 0.1])
+        need = (float(u @ g) - eps + float(np.abs(u[~neg]).sum()) * 2 * narrow * 2) / float(np.abs(u[neg]).sum())
+        wide = max(0.5, need) * rng.choice([1.0, 2.0, 4.0])
+        half = np.where(neg, wide, narrow)
+        f0, f1 = rng.choice([0.0, 0.4, -0.4]), rng.choice([0.0, 0.4, -0.4])
+        off0, off1 = f0 * half * np.where(neg, 1.0, 0.5), f1 * half * np.where(neg, 1.0, 0.5)
+        lo0, hi0 = off0 - half, off0 + half
+        lo1, hi1 = g + off1 - half, g + off1 + half
+        if not float(u @ (hi1 - lo0)) < eps - 1e-6:              # the corner bound says "cannot cover"
+            continue
+        if not lp_feasible(Wn, lo0, hi0, lo1, hi1, (Wn @ s) * (1 + 1e-6)):   # … but it can
+            continue
+        if all(np.all(Wn @ (v1 + s - v0) >= 0) for v0 in c01.box_vertices(lo0, hi0) for v1 in c01.box_vertices(lo1, hi1)):
+            continue                                             # design 0 must not be discardable yet
+        Y = [[0.0] * m, [float(x) for x in g]]
+        off = [[float(x) for x in off0], [float(x) for x in off1]]
+        halfs = [[float(x) for x in half]] * 2
+        if rng.random() < 0.5:      # an incomparable bystander far along a facet direction
+            Y.append([float(x) for x in (10.0 * np.where(neg, 1.0, 0.0) - 0.0 * u)])
+            off.append([0.0] * m)
+            halfs = halfs + [[narrow] * m]
+        n = len(Y)
+        return {"kind": "run", "alg": "VOGP", "cone": cname, "W": W, "shape": "offaxis-ustar-negative", "Y": Y,
+                "eps": eps, "delta": 0.05, "noise_var": 0.01, "conf": rng.choice([32, 9]),
+                "batch": rng.choice([1, 2]) if n > 2 else 1,
+                "adv": {"mode": "boxes", "frac": 1.0, "sd0": [[1.0] * m] * n, "shrink": [0.5] * n,
+                        "seed": rng.randrange(1 << 30), "tail_shrink": 0.5,
+                        "history": [[off, halfs], [[[0.0] * m] * n, [[2.0 ** -8] * m] * n]]}}
+    return None
+
+
 def gen(ctx):
     rng = ctx.rng
+    for _ in range(ctx.n(8, 160)):
+        c = offaxis_case(rng)
+        if c is not None:
+            yield c
     for _ in range(ctx.n(8, 160)):
         c = promote_early_case(rng)
         if c is not None:
